@@ -122,6 +122,17 @@ class _AsyncBytesIO:
         """
         return self._bytesio.read(size)
 
+    def size(self):
+        """Get the total size of the wrapped stream.
+
+        Returns
+        -------
+        int
+            The number of bytes in the wrapped `BytesIO` object
+
+        """
+        return self._bytesio.getbuffer().nbytes
+
     async def write(self, data):
         """Write data.
 
@@ -1086,7 +1097,10 @@ class AdbDeviceAsync(object):
         await self._filesync_send(constants.SEND, adb_info, filesync_info, data=fileinfo)
 
         if progress_callback:
-            total_bytes = (await get_running_loop().run_in_executor(None, os.fstat, stream.fileno())).st_size
+            if isinstance(stream, _AsyncBytesIO):
+                total_bytes = stream.size()
+            else:
+                total_bytes = (await get_running_loop().run_in_executor(None, os.fstat, stream.fileno())).st_size
 
         while True:
             data = await stream.read(self.max_chunk_size)
